@@ -1,4 +1,5 @@
 """C01 - the parse tree mirrors the source (Engines G, F)."""
+from .. import rules_flow as RF
 from .. import rules_grammar as RG
 from .. import rules_tree as RT
 from .. import rules_alias as RA
@@ -60,3 +61,4 @@ def run(ctx, rep):
     rep.run(RG.rule_word_boundary, ctx, rep, "G9")
     rep.run(RT.rule_lists_kept_whole, ctx, rep, "G10")
     rep.require_min("G7", 2)
+    rep.run(RF.rule_locals_defined, ctx, rep, "U1", packages=("gtwrap/interface_parser",), min_functions=3)
